@@ -180,10 +180,12 @@ func replayVariant(self string, cfg *Config, v variant, need map[string]bool) Va
 	}
 	var fired []string
 	seen := map[string]bool{}
-	for _, o := range obls {
+	known, _ := loadKnown(filepath.Join(verifDir, "known_findings.json"))
+	for i := range obls {
+		o := obls[i]
 		if (o.Verdict == Violated || o.Verdict == Undecided) && !seen[o.Rule] {
-			// the known finding of the unchanged tree does not count
-			if o.Rule == "R-GATE" && strings.Contains(o.Key, "[len(doc) == 0]") {
+			// the known findings of the unchanged tree do not count
+			if known != nil && known.match("", &o) != nil {
 				continue
 			}
 			seen[o.Rule] = true
